@@ -125,7 +125,7 @@ def audit(prop):
     discharged = 0
     # parse "'name' depends on axioms: [a, b]" / "'name' does not depend on any axioms"
     seen = {}
-    for m in re.finditer(r"'([^']+)' (does not depend on any axioms|depends on axioms: \[([^\]]*)\])", out):
+    for m in re.finditer(r"^'(\S+)' (does not depend on any axioms|depends on axioms: \[([^\]]*)\])", out, re.M):
         name = m.group(1)
         axs = set() if m.group(3) is None else {a.strip() for a in m.group(3).replace('\n', ' ').split(',') if a.strip()}
         seen[name] = axs
